@@ -99,10 +99,17 @@ def gen_derived(rng: random.Random) -> Dict[str, Any]:
         involved = list(rng.choice(libgen.subchains(name, 6)))
         rng.shuffle(involved)
     inp: Dict[str, Any] = {"layout": name, "involved": involved, "mode": mode}
-    if rng.random() < 0.3:
+    r = rng.random()
+    if r < 0.25:
         perm = list(range(10, 10 + len(involved)))
         rng.shuffle(perm)
         inp["index_map"] = {q: i for q, i in zip(involved, perm)}
+    elif r < 0.45:
+        # a device-wide identifier -> channel map (strict superset of the involved qubits)
+        everyone = sorted(c16.SPEC_LEVELS)
+        perm = list(range(len(everyone)))
+        rng.shuffle(perm)
+        inp["index_map"] = {q: i for q, i in zip(everyone, perm)}
     if rng.random() < 0.25:
         gates = [g for i in range(libgen.layout(name).gate_sequence_count) for g in layer_sets(libgen.layout(name).get_gate_sequence_at_index(i))[0]
                  if g[0] in involved and g[1] in involved]
@@ -229,7 +236,7 @@ def run_shard(shard: Dict[str, Any]) -> Acc:
         inp = gen_derived(rng)
         acc.hist("mode", inp["mode"] + ("+composite" if inp.get("composite") else ""))
         acc.case(bp.phash(inp), True, sample=inp)
-        check_derived(dev, inp, acc)
+        common.guarded(acc, check_derived, dev, inp, acc, case={"derived": inp})
     return acc
 
 
